@@ -1,5 +1,6 @@
 /- C27 driver:
-   `C27 respond <contentbytes> <etag> <lastmod> <ctype> <head T|F> <range|~> <inm|~> <ims atom>` → `ok <status> [[name,value],…] <body>`
+   `C27 respond <contentbytes> <etag> <lastmod> <ctype> <head T|F> <range|~> <inm|~> <ims|~> <mtime>` → `ok <status> [[name,value],…] <body>`
+   `C27 ims <mtime> <ims|~>` → `ok <absent|unparseable|before|notBefore> <instant|~>`   (model of parsedate_to_datetime + comparison)
    `C27 parse <h>` → `ok ~ | [start|~, end|~]`      `C27 valid <h>` → `ok T|F`     `C27 etags <inm>` -/
 import TornadoModel.Base.Wire
 import TornadoModel.C27.Spec
@@ -9,12 +10,11 @@ open TornadoModel TornadoModel.Wire TornadoModel.C27
 def optStr (v : V) : Option (Option Str) :=
   if v.isNone then some none else v.cps?.map some
 
-def decIms : V → Option Ims
-  | .atom "absent" => some .absent
-  | .atom "unparseable" => some .unparseable
-  | .atom "before" => some .before
-  | .atom "notBefore" => some .notBefore
-  | _ => none
+def encIms : Ims → V
+  | .absent => .atom "absent"
+  | .unparseable => .atom "unparseable"
+  | .before => .atom "before"
+  | .notBefore => .atom "notBefore"
 
 /-- integers as hexadecimal text (CPython limits decimal conversions to 4300 digits) -/
 def hexI (i : Int) : Str :=
@@ -29,13 +29,17 @@ def handle (toks : List String) : String :=
   match toks.tail.mapM V.parse, toks.head? with
   | some args, some cmd =>
     match cmd, args with
-    | "respond", [content, etag, lm, ct, head, range, inm, ims] =>
-      match content.byteNats?, etag.cps?, lm.cps?, ct.cps?, head.bool?, optStr range, optStr inm, decIms ims with
-      | some c, some etag, some lm, some ct, some head, some range, some inm, some ims =>
-        let r := respond { content := c, etag := etag, lastModified := lm, ctype := ct }
+    | "respond", [content, etag, lm, ct, head, range, inm, ims, mtime] =>
+      match content.byteNats?, etag.cps?, lm.cps?, ct.cps?, head.bool?, optStr range, optStr inm, optStr ims, mtime.int? with
+      | some c, some etag, some lm, some ct, some head, some range, some inm, some ims, some mtime =>
+        let r := respond { content := c, etag := etag, lastModified := lm, ctype := ct, mtime := mtime }
                          { head := head, range := range, inm := inm, ims := ims }
         ok [.int r.status, .list (r.headers.map (fun (k, v) => .list [V.ofCps k, V.ofCps v])), V.ofByteNats r.body]
-      | _, _, _, _, _, _, _, _ => err "bad-arg"
+      | _, _, _, _, _, _, _, _, _ => err "bad-arg"
+    | "ims", [mtime, v] => match mtime.int?, optStr v with
+      | some mtime, some v =>
+        ok [encIms (imsClass mtime v), V.ofOpt (fun (t : Int) => V.int t) (v.bind Date.parseInstant)]
+      | _, _ => err "bad-arg"
     | "parse", [h] => match h.cps? with
       | some h => match parseRange h with
         | some (s, e) => ok [.list [encOptInt s, encOptInt e]]
